@@ -61,7 +61,7 @@ int Logger::operator()()
 {
    unsigned received(0);
 
-   while (!_stopping)
+   for (;;) // left when the empty element enqueued by stop() is dequeued, so that every line accepted before it is written
    {
 		LogElement *msg_ptr(0);
 
